@@ -388,9 +388,9 @@ func TestC05SQLite(t *testing.T) {
 	}
 	p0 := newSQLiteFile(dir)
 	sequentialSanity(r, "sqlite", open(p0), func() ctlog.LockBackend { return open(p0) })
-	n := pick(8, 120)
+	n := pick(16, 120)
 	if raceEnabled {
-		n = pick(3, 20)
+		n = pick(5, 20)
 	}
 	for h := 0; h < n; h++ {
 		p := newSQLiteFile(dir)
@@ -427,7 +427,7 @@ func TestC05SQLiteProcesses(t *testing.T) {
 	r.Rule = "2-5 separate OS processes (the harness binary re-executed as a lock client) on one SQLite file, each logging call/return around every LockBackend call with CLOCK_MONOTONIC; merged history checked as above"
 	rng := NewRng(r.Seed, "c05proc")
 	dir := scratchRoot()
-	n := pick(4, 40)
+	n := pick(6, 40)
 	for h := 0; h < n; h++ {
 		if !mine(h) {
 			continue
@@ -509,9 +509,9 @@ func TestC05Dynamo(t *testing.T) {
 	shard, _ := shardInfo()
 	rng = rng.Fork(fmt.Sprint(shard))
 	ctx := context.Background()
-	n := pick(8, 150)
+	n := pick(16, 150)
 	if raceEnabled {
-		n = pick(3, 20)
+		n = pick(5, 20)
 	}
 	for h := 0; h < n; h++ {
 		faults := &fakeFaults{rng: rng.Fork(fmt.Sprint("f", h)), DelayUs: 300}
@@ -555,9 +555,9 @@ func TestC05ETag(t *testing.T) {
 	shard, _ := shardInfo()
 	rng = rng.Fork(fmt.Sprint(shard))
 	ctx := context.Background()
-	n := pick(8, 150)
+	n := pick(16, 150)
 	if raceEnabled {
-		n = pick(3, 20)
+		n = pick(5, 20)
 	}
 	for h := 0; h < n; h++ {
 		faults := &fakeFaults{rng: rng.Fork(fmt.Sprint("f", h)), DelayUs: 300}
